@@ -287,9 +287,10 @@ class ComposedNode(ConfigNode):
             if not isinstance(other, ComposedNode):
                 return ConfigNode.ayns.on_merge_impl(self, path, other)
 
-            removed = None
+            # (paths which a deleting node further up has removed in this very merge did exist: see below)
+            removed = other.__dict__.pop('_removed_by_parent', None)
             if other.ayns.delete:
-                removed = set()
+                removed = set(removed or ())
                 def maybe_keep(node_path, node):
                     # "node_path" starts with the path of "self", look it up relative to "other"
                     other_node = other.ayns.get_first_not_missing_node(node_path[len(path):])
@@ -317,7 +318,12 @@ class ComposedNode(ConfigNode):
                     self.ayns.set_child(key, value)
                 else:
                     merge = isinstance(child, ComposedNode)
-                    possibly_new_child = child.ayns.on_merge(path + [key], value)
+                    if removed and isinstance(value, ComposedNode):
+                        value._removed_by_parent = removed
+                    try:
+                        possibly_new_child = child.ayns.on_merge(path + [key], value)
+                    finally:
+                        value.__dict__.pop('_removed_by_parent', None)
 
                     if merge:
                         # (a node which meets itself was emptied by !clear: it stays, as an empty container)
